@@ -54,6 +54,7 @@ func c14ieval(r *vx.R, c c14icase) {
 func TestVX_C14_Schemes(t *testing.T) {
 	r := vx.Begin("C14", "mul-schemes", "the three alternative fixed-window base-multiplication schemes (4-2-32, 5-3-17, 7-3-12) and the 6-3-14 scheme called directly: every window value at every position of the scheme's own layout on zero (and, thorough, seeded) background, all remainder values, boundary scalars; oracle sm2ref; results must satisfy the projective curve equation")
 	defer r.End()
+	defer vxSeamReport(r)
 	if raw, ok := vx.Replay("mul-schemes"); ok {
 		var c c14icase
 		json.Unmarshal(raw, &c)
